@@ -17,7 +17,7 @@ from ..frontend import AnalysisBroken
 from ..model import qt, loc_str, walk, inner
 from ..expr import canon, pretty, children, strip, callee_info
 from ..cfg import cfg_of
-from .common import CQ, short, calls_to, loop_has_early_exit
+from .common import CQ, short, calls_to, loop_has_early_exit, expand_locals
 
 EXPLANATION = (
     "Static check on the clang-resolved AST of row_legalizer.cpp. The state of RowLegalizer is {bounds, constrainingPos_, "
@@ -32,8 +32,22 @@ DECLINED = ["order preservation, non-overlap, containment and optimality of the 
             "pushed against the right end of the row -- not visible in code shape)"]
 
 
+def state_members(prog):
+    """(queue member, [vector members]) of RowLegalizer, identified by type: the std::priority_queue of bounds and the
+    std::vector<int> members holding the committed positions / cumulative widths."""
+    r = prog.records.get(CQ + "RowLegalizer")
+    if not r:
+        raise AnalysisBroken("class RowLegalizer not found")
+    queue = [n for n, fd in r["fields"].items() if "priority_queue" in qt(fd)]
+    vecs = [n for n, fd in r["fields"].items() if "vector<int" in qt(fd) and not fd.get("mutable")]
+    if len(queue) != 1 or len(vecs) < 2:
+        raise AnalysisBroken("RowLegalizer: expected one priority_queue member and two vector<int> members, found %s / %s" % (queue, vecs))
+    return queue[0], vecs
+
+
 def run(ctx, rep, tier):
     prog, eff = ctx.prog, ctx.eff
+    QN, VECS = state_members(prog)
     rep.rule("G11", "committed-state mutations in getDisplacement dominated by update == true", 3)
     rep.rule("R6", "bounds popped during a query are saved and all pushed back", 2)
     rep.rule("TS", "final position selector is the exact complement of the descent condition on the slope", 1)
@@ -42,10 +56,10 @@ def run(ctx, rep, tier):
     rep.rule("QP", "getCost queries (update=false), push commits (update=true), clear resets everything", 3)
     f = prog.func1(CQ + "RowLegalizer::getDisplacement")
     g = cfg_of(f)
-    upd = [p for p in f.params if p.get("name") == "update"]
-    if not upd:
-        raise AnalysisBroken("getDisplacement has no `update` parameter any more")
-    uv = ("var", upd[0].get("id"), "update")
+    upd = [p for p in f.params if qt(p).replace("const ", "").strip() == "bool"]
+    if len(upd) != 1:
+        raise AnalysisBroken("getDisplacement should have exactly one bool parameter (the commit flag), found %d" % len(upd))
+    uv = ("var", upd[0].get("id"), upd[0].get("name"))
     from .common import var_write_nodes
     if var_write_nodes(ctx, f, [uv[1]]):
         rep.unknown("G11", f.decl, f, "update parameter", "the parameter is modified inside the function")
@@ -56,7 +70,7 @@ def run(ctx, rep, tier):
         guards = ctx.guards(f, node) or []
         return any(gc == uv and val is value for gc, val, _a, _b in guards)
 
-    for fld in ("cumWidth_", "constrainingPos_"):
+    for fld in VECS:
         ws = s["writes"].get(CQ + "RowLegalizer::" + fld, []) + s["escapes"].get(CQ + "RowLegalizer::" + fld, [])
         if not ws:
             rep.unknown("G11", f.decl, f, fld, "no write found (shape changed)")
@@ -67,7 +81,7 @@ def run(ctx, rep, tier):
                 rep.violation("G11", u.node, f, "%s modified on a query path (%s)" % (fld, u.why), "a cost prediction would change the legalizer's state",
                               key="RowLegalizer::getDisplacement|%s modified without update" % fld)
     # bounds
-    bq = CQ + "RowLegalizer::bounds"
+    bq = CQ + "RowLegalizer::" + QN
     muts = s["writes"].get(bq, []) + s["escapes"].get(bq, [])
     pops = [u.node for _x, u in muts if "pop" in u.why]
     pushes = [u.node for _x, u in muts if "push" in u.why or "emplace" in u.why]
@@ -76,7 +90,7 @@ def run(ctx, rep, tier):
         rep.unknown("R6", others[0].node, f, "bounds", "unrecognised mutation of bounds: %s" % others[0].why)
     # save list: local vector that receives bounds.top()
     saves = [x for x in walk(f.body) if x.get("kind") == "CXXMemberCallExpr" and callee_info(x)["name"] in ("push_back", "emplace_back")
-             and callee_info(x)["args"] and canon(callee_info(x)["args"][0]) == ("call", "top", ("field", bq, ("this",)))]
+             and callee_info(x)["args"] and expand_locals(ctx, f, canon(callee_info(x)["args"][0])) == ("call", "top", ("field", bq, ("this",)))]
     ok_pop = True
     save_nodes = [g.node_for(x) for x in saves]
     upd_true_edges = [n for n in g.nodes if n.kind == "edge" and n.val is True and canon(n.ast) == uv]
@@ -145,10 +159,11 @@ def run(ctx, rep, tier):
     c = prog.func1(CQ + "RowLegalizer::clear")
     sc = eff.summary(c)
     w = {x.split("::")[-1] for x in sc["writes"] if x.startswith(CQ + "RowLegalizer::")}
-    if {"cumWidth_", "bounds", "constrainingPos_"} <= w:
-        rep.holds("QP", c.decl, c, "clear() resets bounds, constrainingPos_ and cumWidth_")
+    allst = set(VECS) | {QN}
+    if allst <= w:
+        rep.holds("QP", c.decl, c, "clear() resets %s" % ", ".join(sorted(allst)))
     else:
-        rep.violation("QP", c.decl, c, "clear() leaves %s untouched" % sorted({"cumWidth_", "bounds", "constrainingPos_"} - w), "", key="RowLegalizer::clear|incomplete reset")
+        rep.violation("QP", c.decl, c, "clear() leaves %s untouched" % sorted(allst - w), "", key="RowLegalizer::clear|incomplete reset")
 
     check_tie_selector(ctx, rep, f)
     check_bound_positions(ctx, rep, f)
@@ -259,7 +274,7 @@ def check_bound_positions(ctx, rep, f):
     from ..order import Facts, Prover
     from .common import expand_locals
     g = cfg_of(f)
-    bq = CQ + "RowLegalizer::bounds"
+    bq = CQ + "RowLegalizer::" + state_members(ctx.prog)[0]
     begin = ("field", CQ + "RowLegalizer::begin_", ("this",))
     n = 0
     for x in walk(f.body):
